@@ -90,6 +90,182 @@ def exhaustive_host(depth, cfg, nobj=3, names=(1, 2, 3)):
 
 
 # ---------------------------------------------------------------------------------------------
+# script level: abstract statements (the syntax read by lean/Driver/Target.lean) and their rendering
+
+def name_lit(n):
+    return '""' if n == 1 else '"n%d"' % (n - 1)
+
+
+def name_expr(n, rng):
+    if n == 1:
+        return '$("")'
+    return rng.choice(["$n%d", '$("n%d")', "$n%d"]) % (n - 1)
+
+
+def who_expr(w):
+    return "self" if w == "self" else "level.o[%s]" % w[1:]
+
+
+def src_expr(x, rng):
+    return name_expr(int(x[1:]), rng) if x[0] == "$" else "level.%s" % x
+
+
+class Renderer:
+    """abstract statement (token list) -> script text.  Every statement is its own script, run in
+    the same context: objects are `level.o[k]` (k = creation order, `level.n` objects so far),
+    captured values are `level.v<k>`."""
+
+    def __init__(self, rng):
+        self.rng = rng
+        self.k = 0
+
+    def fresh(self):
+        self.k += 1
+        return self.k
+
+    def act(self, t):
+        rng = self.rng
+        op = t[0]
+        if op == "spawn":
+            n = int(t[1])
+            arg = (" targetname " + name_lit(n)) if n else ""
+            return ["if (level.n < %d) {" % MAXOBJ, "level.n++", "local.s = spawn SimpleEntity" + arg,
+                    "local.s.id = level.n", "local.s.cnt = 0", "local.s.fld = 0", "level.o[level.n] = local.s",
+                    'println ("sp " + level.n)', "} else {", 'println "full"', "}"]
+        if op == "setname":
+            w, n = who_expr(t[1]), name_lit(int(t[2]))
+            return [rng.choice(["%s.targetname = %s", "%s targetname %s"]) % (w, n)]
+        if op == "delete":
+            return ["%s %s" % (who_expr(t[1]), rng.choice(["remove", "delete", "immediateremove"]))]
+        if op == "mark":
+            w = who_expr(t[1])
+            return ["if (%s) {" % w, "%s.cnt = %s.cnt + 1" % (w, w), "} else {", 'println "m0"', "}"]
+        if op == "hello":
+            return ["if (self) {", 'println ("h " + self.id)', "} else {", 'println "h0"', "}"]
+        if op == "capture":
+            return ["level.v%s = %s" % (t[1], name_expr(int(t[2]), rng))]
+        if op == "copy":
+            return ["level.v%s = level.v%s" % (t[1], t[2])]
+        if op == "query":
+            k = self.fresh()
+            x, i, e = "local.x%d" % k, "local.i%d" % k, "local.e%d" % k
+            return ["%s = %s" % (x, src_expr(t[1], rng)),
+                    'println ("q " + (typeof %s) + " " + %s.size)' % (x, x),
+                    "for (%s = 1; %s <= %s.size; %s++) {" % (i, i, x, i),
+                    "%s = %s[%s]" % (e, x, i),
+                    "if (%s) {" % e, 'println ("e " + %s.id)' % e, "} else {", 'println "e 0"', "}", "}"]
+        if op == "size":
+            return ['println ("s " + %s.size)' % src_expr(t[1], rng)]
+        if op == "index":
+            e = "local.e%d" % self.fresh()
+            return ["%s = %s[%s]" % (e, src_expr(t[1], rng), t[2]),
+                    "if (%s) {" % e, 'println ("i " + %s.id)' % e, "} else {", 'println "i 0"', "}"]
+        raise ValueError("unknown act " + " ".join(t))
+
+    def stmt(self, t):
+        rng = self.rng
+        op = t[0]
+        body, labels = [], []
+        if op == "init":
+            body = ["level.n = 0"]
+        elif op == "fan":
+            acts, cur = [], []
+            for tok in t[2:]:
+                if tok == ";":
+                    acts.append(cur); cur = []
+                else:
+                    cur.append(tok)
+            if cur:
+                acts.append(cur)
+            body = ["%s thread handler" % src_expr(t[1], rng)]
+            labels = ["handler:"] + [l for a in acts for l in self.act(a)] + ["end"]
+        elif op == "fanname":
+            body = ["%s targetname %s" % (src_expr(t[1], rng), name_lit(int(t[2])))]
+        elif op == "fandelete":
+            body = ["%s %s" % (src_expr(t[1], rng), rng.choice(["remove", "delete"]))]
+        elif op == "fieldset":
+            body = ["%s.fld = %s" % (src_expr(t[1], rng), t[2])]
+        else:
+            body = self.act(t)
+        return "\n".join(["main:"] + body + ["end"] + labels) + "\n"
+
+
+def sline(rd, toks):
+    src = rd.stmt(toks)
+    return "s %s ## %s" % (src.encode().hex(), " ".join(toks))
+
+
+def gen_simple_act(rng, nobj, nnames, in_handler):
+    """one simple statement, mostly meaningful"""
+    names = NAMES[:nnames]
+    nm = lambda: (rng.choice(names) if rng.random() < 0.9 else 1)
+    who = lambda: ("self" if in_handler and rng.random() < 0.5 else "o%d" % rng.randint(1, max(1, min(MAXOBJ, nobj + (1 if rng.random() < 0.05 else 0)))))
+    src = lambda: ("$%d" % nm() if rng.random() < 0.6 else "v%d" % rng.randint(1, 3))
+    x = rng.random()
+    if x < 0.12:
+        return ["spawn", str(rng.choice([0] + names + names))]
+    if x < 0.40:
+        return ["setname", who(), str(nm())]
+    if x < 0.52:
+        return ["delete", who()]
+    if x < 0.58:
+        return ["mark", who()]
+    if x < 0.68:
+        return ["capture", str(rng.randint(1, 3)), str(nm())]
+    if x < 0.72:
+        return ["copy", str(rng.randint(1, 3)), str(rng.randint(1, 3))]
+    if x < 0.84:
+        return ["query", src()]
+    if x < 0.90:
+        return ["size", src()]
+    return ["index", src(), str(rng.randint(0, 4))]
+
+
+def gen_stmt(rng, nobj, nnames):
+    names = NAMES[:nnames]
+    nm = lambda: (rng.choice(names) if rng.random() < 0.9 else 1)
+    src = lambda: ("$%d" % nm() if rng.random() < 0.7 else "v%d" % rng.randint(1, 3))
+    x = rng.random()
+    if x < 0.62:
+        return gen_simple_act(rng, nobj, nnames, False)
+    if x < 0.80:
+        acts = [["hello"], ["mark", "self"]]
+        for _ in range(rng.choice([0, 1, 1, 2, 3])):
+            acts.append(gen_simple_act(rng, nobj, nnames, True))
+        toks = ["fan", src()]
+        for i, a in enumerate(acts):
+            if i:
+                toks.append(";")
+            toks += a
+        return toks
+    if x < 0.88:
+        return ["fanname", src(), str(nm())]
+    if x < 0.93:
+        return ["fandelete", src()]
+    return ["fieldset", src(), str(rng.randint(1, 99))]
+
+
+def gen_script_case(rng, n, cfg, nnames=4):
+    """abstract statements only (token lists); rendering happens in `render_case`"""
+    stmts = [["init"]]
+    nobj = 0
+    # start with a few named objects so that groups exist early
+    for _ in range(rng.choice([0, 2, 3, 4])):
+        stmts.append(["spawn", str(rng.choice(NAMES[:nnames]))]); nobj += 1
+    for _ in range(n):
+        t = gen_stmt(rng, nobj, nnames)
+        if t[0] == "spawn":
+            nobj = min(MAXOBJ, nobj + 1)
+        stmts.append(t)
+    return stmts
+
+
+def render_case(rng, cfg, stmts):
+    rd = Renderer(rng)
+    return [header(cfg)] + [sline(rd, t) for t in stmts]
+
+
+# ---------------------------------------------------------------------------------------------
 
 class Prop:
     def classify(self, lines, impl, crash, model):
